@@ -92,6 +92,53 @@ def run_case(prop: str, root: str, case: dict, known) -> tuple[str, str]:
         shutil.rmtree(tmp, ignore_errors=True)
 
 
+def run_seeded(prop: str, root: str, known):
+    """Applies each confirmed seeded patch (/verif/seeded/<prop>-*/) to scratch copies of the files
+    it touches and expects the rule recorded in its meta.json (`detected_by`) to fire."""
+    import glob
+    import json
+    import re
+    import subprocess
+
+    from .run import analyse
+
+    out = []
+    for meta_path in sorted(glob.glob(os.path.join(core.VERIF, "seeded", f"{prop}-*", "meta.json"))):
+        d = os.path.dirname(meta_path)
+        meta = json.load(open(meta_path))
+        want = meta.get("detected_by")
+        if not want:
+            continue
+        patch = os.path.join(d, "patch.diff")
+        files = re.findall(r"^\+\+\+ b/(.+)$", open(patch).read(), re.M)
+        tmp = tempfile.mkdtemp(prefix="sa_seeded_")
+        try:
+            for f in files:
+                dst = os.path.join(tmp, f)
+                os.makedirs(os.path.dirname(dst), exist_ok=True)
+                if os.path.exists(os.path.join(root, f)):
+                    shutil.copy(os.path.join(root, f), dst)
+            r = subprocess.run(["patch", "-p1", "-s", "--no-backup-if-mismatch", "-d", tmp, "-i", patch], capture_output=True, text=True)
+            name = f"seeded {os.path.basename(d)}"
+            if r.returncode != 0:
+                out.append(("stale", f"{name}: patch no longer applies"))
+                continue
+            try:
+                ctx, _p, _m = analyse(prop, "quick", root, overlay=tmp, known=known)
+            except core.AnalysisError as ex:
+                out.append(("FAIL", f"{name}: analysis error: {ex}"))
+                continue
+            fired = {o.rule for o in ctx.obligations if o.status == "violated"}
+            wants = want if isinstance(want, list) else [want]
+            if any(w in fired for w in wants):
+                out.append(("ok", f"{name}: {sorted(fired & set(wants))} fired"))
+            else:
+                out.append(("FAIL", f"{name}: expected {wants} to fire; fired {sorted(fired) or 'nothing'}"))
+        finally:
+            shutil.rmtree(tmp, ignore_errors=True)
+    return out
+
+
 def run_for(prop: str, root: str) -> dict:
     mod = importlib.import_module(f"sa.rules.{prop}")
     cases = list(getattr(mod, "SELFTEST", []))
@@ -111,6 +158,16 @@ def run_for(prop: str, root: str) -> dict:
         else:
             res["twins"] += 1
             res["silent"] += outcome == "ok"
+        if outcome == "FAIL":
+            failures.append(msg)
+    # the confirmed seeded regressions of this property are part of the corpus
+    for outcome, msg in run_seeded(prop, root, known):
+        res["cases"].append(f"{outcome}: {msg}")
+        if outcome == "stale":
+            res["stale"] += 1
+            continue
+        res["mutants"] += 1
+        res["fired"] += outcome == "ok"
         if outcome == "FAIL":
             failures.append(msg)
     nm = sum(1 for c in cases if c.get("expect") is not None)
